@@ -45,6 +45,10 @@ ObsMatch(s, o, cmploc) ==
      /\ \A j \in 1..Len(s.log) : /\ s.log[j].name = o.log[j].name
                                  /\ Len(s.log[j].args) = Len(o.log[j].args)
                                  /\ \A q \in 1..Len(s.log[j].args) : ValMatch(s.log[j].args[q], o.log[j].args[q])
+     \* a failed host task carries the function's name; a rejected argument names a rejected parameter
+     /\ (s.st = "err" /\ s.kind = "TaskFailure" /\ s.task.name # "") =>
+          /\ o.task.name = s.task.name
+          /\ s.task.params # {} => (o.task.inner = "InvalidArgument" /\ o.task.param \in s.task.params)
      /\ (cmploc /\ s.st = "err") =>
           /\ o.trace # <<>> /\ SameLoc(s.at, o.trace[1])
           \* the call chain innermost first; the crate may append the program entry
